@@ -511,7 +511,10 @@ func encodeTWCC(w *wr, t *rtcp.TransportLayerCC) error {
 		w.u16(fmt.Sprintf("chunk[%d]", i), word)
 	}
 	for i, dl := range t.RecvDeltas {
-		if dl == nil || dl.Delta%250 != 0 {
+		// a delta that is not a whole number of 250 µs units is quantised (the remainder is
+		// dropped); for negative values "dropped" is ambiguous between rounding down and rounding
+		// toward zero, so only whole units are in D there
+		if dl == nil || (dl.Delta%250 != 0 && dl.Delta < 0) {
 			return ErrOutsideDomain
 		}
 		u := dl.Delta / 250
